@@ -209,9 +209,21 @@ func dasSC(t *testing.T, rep *vx.Report, prop string, deadline time.Time) bool {
 	if rep.Tier == "thorough" {
 		bounds = []int{0, 1, 2, 3}
 	}
+	// scenarios with more than one worker in flight need the iteration order over the coordinator's
+	// worker table to be owned (overlay rewrite vByJobID); probe whether it is active
+	vByJobIDCalls = 0
+	(&coordinatorState{inProgress: map[int]func() workerState{}}).unsafeStats()
+	ordered := vByJobIDCalls > 0
+	rep.Set("das_sc_worker_table_order_owned", ordered)
 	for _, sc := range dscScenarios(rep.Tier) {
 		sc := sc
+		if !ordered && (sc.Conc > 1 || sc.Head > sc.To) {
+			rep.Set("das_sc_"+sc.Name, map[string]any{"scenario": sc, "skipped": "iteration order of the worker table is not owned (rewrite did not apply)"})
+			exhaustive = false
+			continue
+		}
 		completed := -1
+		diverged := false
 		var total, points int64
 		outcomes := map[string]int64{}
 		for _, b := range bounds {
@@ -223,7 +235,20 @@ func dasSC(t *testing.T, rep *vx.Report, prop string, deadline time.Time) bool {
 				return fmt.Sprint(len(e.Choices)), nil
 			}, func(e *vx.Exec, err error) {
 				sig := vSig(err)
-				if strings.HasPrefix(sig, "harness") || strings.HasPrefix(sig, "DIVERGENCE") {
+				if strings.HasPrefix(sig, "DIVERGENCE") {
+					// The coordinator's own `select` between a worker result, a head and a statistics
+					// request is decided by the Go runtime. On the code as it stands at most one of them
+					// is ready at a time (one hooked thread runs per step and the coordinator has no
+					// hooked operation); if a changed coordinator parks at a lock in between, two can be
+					// ready and a prefix no longer replays. Verdicts stay sound (each is judged on what
+					// really happened), only the coverage claim is lost.
+					if !diverged {
+						diverged = true
+						fmt.Printf("VERIF-NOTE das-sc scenario=%s: a schedule prefix did not replay (%v); scenario reported as not exhaustive\n", sc.Name, err)
+					}
+					return
+				}
+				if strings.HasPrefix(sig, "harness") {
 					rep.Infra(fmt.Sprintf("%v scenario=%s choices=%v", err, sc.Name, e.Choices))
 					return
 				}
@@ -236,7 +261,7 @@ func dasSC(t *testing.T, rep *vx.Report, prop string, deadline time.Time) bool {
 			for k, v := range st.Outcomes {
 				outcomes[k] = v
 			}
-			if !st.Complete {
+			if !st.Complete || diverged {
 				exhaustive = false
 				break
 			}
